@@ -11,6 +11,7 @@ Case kinds
   eig     named eigenvalue sequences (exact model for linear / quadratic / inverse; all six in the oracle).
   kl      Karhunen–Loève data = drawn coefficients times basis (scripted `multivariate_normal`), every
           basis family, 1-D / 2-D / multivariate, non-default `centers` / `clusters_std`.
+  zc      Datasets `zhang_chen` curves = mu + vi + eps from scripted draws (two generator calls per curve).
   bm      Brownian paths (standard / geometric) from scripted draws; non-default `init_point`, `mu`, `sigma`.
   grid    the regular-spacing guard of `Brownian.new`.
 """
@@ -43,7 +44,8 @@ PARTIAL = [
     "'successive draws differ' is probabilistic: sampled on the implementation only",
     "bit-reproducibility of NumPy's generators is a parameter (abstract deterministic streams in the model)",
     "eigenvalue sequences exponential / sqrt / wiener (real-valued closed forms) and exp() in geometric paths: oracle only",
-    "fractional Brownian motion: reproducibility only (no structural clause in the property)",
+    "fractional Brownian motion: reproducibility and draw skeleton (two calls per curve) only — no structural clause in the property",
+    "standard-normal scales of Zhang-Chen (1, sqrt 2, sqrt 3; sqrt(0.1 (1 + t))) are received by the scripted source, not modelled",
 ]
 
 
@@ -298,6 +300,13 @@ def gen_cases(rng: Rng, tier):
             c["mu"] = float(rng.choice([0.0, 0.5, -1.0]))
             c["sigma"] = float(rng.choice([1.0, 0.5, 2.0]))
         yield c
+    for _ in range(20 if tier == "quick" else 200):
+        m, n_obs = rng.randint(2, 9), rng.randint(1, 4)
+        yield dict(kind="zc", m=m, n_obs=n_obs, seeded=rng.random() < 0.7, t0=rs(rng.choice([Fraction(0), Fraction(-1, 2), Fraction(3)])),
+                   span=rs(rng.choice([Fraction(1), Fraction(2), Fraction(1, 2)])),
+                   Zc=[[rs(x) for x in rng.dyadics(3, -2, 2, 2)] for _ in range(n_obs)],
+                   Ze=[[rs(x) for x in rng.dyadics(m, -2, 2, 3)] for _ in range(n_obs)],
+                   post=rng.choice([[], ["sparse"], ["comb"]]))
     for _ in range(ng):
         m = rng.randint(2, 8)
         h = rng.choice([Fraction(1, 4), Fraction(1, 8), Fraction(1), Fraction(3, 16)])
@@ -577,6 +586,56 @@ def _impl_bm(case):
     return out
 
 
+class _ScriptZC:
+    """Scripted `normal(loc, scale)` for `_zhang_chen`: per curve first the three coefficients, then the noise."""
+
+    def __init__(self, Zc, Ze):
+        self.Zc = [[float(F(x)) for x in r] for r in Zc]
+        self.Ze = [[float(F(x)) for x in r] for r in Ze]
+        self.k = 0
+        self.calls = []
+
+    def normal(self, loc=0.0, scale=1.0, size=None):
+        i, second = divmod(self.k, 2)
+        self.k += 1
+        z = np.array(self.Ze[i] if second else self.Zc[i])
+        sc = np.asarray(scale, dtype=float)
+        if sc.shape != z.shape:
+            raise RuntimeError(f"script: scale of shape {sc.shape} for draw {self.k - 1}")
+        out = loc + sc * z
+        self.calls.append(out.tolist())
+        return out
+
+
+def _impl_zc(case):
+    from FDApy.simulation.datasets import Datasets
+
+    m = case["m"]
+    t = float(F(case["t0"])) + float(F(case["span"])) * np.arange(m) / max(m - 1, 1)
+    sim = Datasets(basis_name="zhang_chen", random_state=9 if case["seeded"] else None)
+    stub = _ScriptZC(case["Zc"], case["Ze"])
+    saved = None
+    g0 = _gstate()
+    try:
+        if case["seeded"]:
+            sim.random_state = stub
+        else:
+            saved = np.random.normal
+            np.random.normal = stub.normal
+        try:
+            sim.new(n_obs=case["n_obs"], argvals=t)
+        except Exception as e:  # noqa: BLE001
+            return dict(status="error:" + err_class(e), msg=str(e)[:120])
+    finally:
+        if saved is not None:
+            np.random.normal = saved
+    glob_changed = case["seeded"] and g0 != _gstate()
+    post = _post_ops(sim, case, 9 if case["seeded"] else None)
+    return dict(status="ok", values=np.asarray(sim.data.values, dtype=float).tolist(), calls=stub.calls, cos=np.cos(2 * np.pi * t).tolist(),
+                sin=np.sin(2 * np.pi * t).tolist(), glob_changed=bool(glob_changed or post["glob_changed"]), post=post["ran"],
+                grid_same=bool(np.array_equal(sim.data.argvals["input_dim_0"], t)))
+
+
 def _impl_grid(case):
     from FDApy.simulation.brownian import Brownian
 
@@ -590,7 +649,7 @@ def _impl_grid(case):
 
 
 def run_impl(case):
-    return {"twin": _impl_twin, "labels": _impl_labels, "eig": _impl_eig, "kl": _impl_kl, "bm": _impl_bm, "grid": _impl_grid}[case["kind"]](case)
+    return {"twin": _impl_twin, "labels": _impl_labels, "eig": _impl_eig, "kl": _impl_kl, "bm": _impl_bm, "grid": _impl_grid, "zc": _impl_zc}[case["kind"]](case)
 
 
 # --------------------------------------------------------------------------
@@ -670,6 +729,12 @@ def model_lines(case, impl):
         return lines
     if kind == "grid":
         return [f"grid {J(case['t'])}"]
+    if kind == "zc":
+        if impl.get("status") != "ok" or len(impl["calls"]) != 2 * case["n_obs"]:
+            return []
+        R = lambda v: J(rs(F(x)) for x in v)  # noqa: E731
+        return [f"zc {R(impl['cos'])} {R(impl['sin'])} {rs(F(impl['calls'][2*i][0]))} {rs(F(impl['calls'][2*i][1]))} {rs(F(impl['calls'][2*i][2]))} {R(impl['calls'][2*i+1])}"
+                for i in range(case["n_obs"])]
     return []
 
 
@@ -779,6 +844,17 @@ def compare(case, impl, model):
             bad = [j for j, (a, b) in enumerate(zip(f, q)) if not close(a, b, sc, 1e-9)]
             if bad:
                 ds.append(f"curve {i} point {bad[0]}: path {f[bad[0]]!r} vs model {float(q[bad[0]])!r}")
+        return ds[:4]
+    if kind == "zc":
+        if impl["status"] != "ok":
+            return [f"implementation raised {impl['status']}: {impl.get('msg')}"]
+        for i, o in enumerate(outs):
+            q = _pvec(o)
+            f = impl["values"][i]
+            sc = max([abs(float(x)) for x in q] + [10.0])
+            bad = [j for j, (a, b) in enumerate(zip(f, q)) if not close(a, b, sc, 1e-9)] if len(f) == len(q) else [-1]
+            if bad:
+                ds.append(f"curve {i} sample {bad[0]}: data {f[bad[0]] if bad[0] >= 0 else len(f)!r} vs mu + vi + eps = {float(q[bad[0]]) if bad[0] >= 0 else len(q)!r}")
         return ds[:4]
     if kind == "grid":
         want = outs[0]
@@ -947,6 +1023,25 @@ def oracle(case, impl):
                 if any(not (x > 0) for x in row):
                     bad("geometric_positive", "Brownian.new", f"curve {i} is not positive: {row}")
                     break
+        return vs
+    if kind == "zc":
+        if impl["status"] != "ok":
+            bad("zhang_chen_structure", "Datasets.new", f"raised {impl['status']}: {impl.get('msg')}")
+            return vs
+        if len(impl["calls"]) != 2 * case["n_obs"] or any(len(c) != (case["m"] if k % 2 else 3) for k, c in enumerate(impl["calls"])):
+            bad("zhang_chen_structure", "Datasets.new", f"expected per curve one draw of 3 coefficients and one of {case['m']} noise values, got sizes {[len(c) for c in impl['calls']]}")
+            return vs
+        cos, sin = np.array(impl["cos"]), np.array(impl["sin"])
+        for i, row in enumerate(impl["values"]):
+            c, eps = impl["calls"][2 * i], np.array(impl["calls"][2 * i + 1])
+            want = (1.2 + 2.3 * cos + 4.2 * sin) + (c[0] + c[1] * cos + c[2] * sin) + eps
+            if len(row) != len(want) or not np.allclose(row, want, rtol=0, atol=1e-9 * (np.abs(want).max() + 10)):
+                bad("zhang_chen_structure", "Datasets.new", f"curve {i}: data are not mu + vi + eps (max dev {np.abs(np.array(row) - want).max() if len(row) == len(want) else 'length'}; operations run after new: {impl['post']})")
+                break
+        if impl["glob_changed"]:
+            bad("global_untouched", "Datasets.new", "seeded simulator advanced the global generator", ["global_generator_used"])
+        if not impl["grid_same"]:
+            bad("zhang_chen_structure", "Datasets.new", "the curves are not on the requested grid")
         return vs
     if kind == "grid":
         t = [F(x) for x in case["t"]]
